@@ -101,8 +101,11 @@ def corpus_pp(rng):
             lines.append("#ifndef %s\n_b = 1;\n#endif" % rng.choice(macros))
         elif r < 0.7:
             lines.append("#undef %s" % rng.choice(macros))
-        elif r < 0.8:
+        elif r < 0.75:
             lines.append("_x = %s(1, (2 + [3, \"a,b\"])) + %s;" % (rng.choice(macros), rng.choice(macros)))
+        elif r < 0.8:
+            # macro names as complete arguments of other macros
+            lines.append("_w = %s(%s, %s);" % (rng.choice(macros), rng.choice(macros), rng.choice(macros)))
         elif r < 0.85:
             lines.append("_y = __EVAL(1 + 2) + __LINE__; _f = __FILE__;")
         elif r < 0.9:
@@ -178,7 +181,10 @@ def special_inputs(rng):
            ("nest:call", "call {" * d + "1" + "}" * d),
            ("macro:self", "#define A A\nA"), ("macro:mutual", "#define A B\n#define B A\nA B"),
            ("macro:self-args", "#define F(x) F(x)\nF(1)"), ("macro:mutual-args", "#define F(x) G(x)\n#define G(x) F(x)\nF(1)"),
-           ("macro:unterminated-call", "#define F(x) x\nF(1, (2"), ("comment:eof-line", "1 // x"), ("comment:eof-block", "1 /* x"),
+           ("macro:unterminated-call", "#define F(x) x\nF(1, (2"),
+           ("macro:callable-name-as-argument", "#define G(x) x\n#define F(a) a\nF(G)"),
+           ("macro:callable-name-as-last-argument", "#define G(x) x\n#define F(a,b) a b\n_v = F(1,G);"),
+           ("macro:object-name-as-argument", "#define N 3\n#define F(a) a\nF(N) F( N ) F(N,N)"), ("comment:eof-line", "1 // x"), ("comment:eof-block", "1 /* x"),
            ("line:eof", "#line"), ("line:garbage", "#line abc \"f\"\n1"), ("string:eof", '"abc'), ("string:eof-single", "'abc"),
            ("hex:eof", "0x"), ("hex:dollar-eof", "$"), ("number:forms", "1e 1e+ .5. 1..2"),
            ("config:nest", "class A {" * d + "};" * d), ("config:array-nest", "a[] = " + "{" * d + "1" + "}" * d + ";"),
